@@ -858,9 +858,9 @@ def draw_plan(seed: int, n: int, iaf_every: int) -> list:
 
 def run(run: Run) -> None:
     q = run.tier == "quick"
-    nprog = int(os.environ.get("VERIF_C01_PROGRAMS", "300" if q else "10000"))
+    nprog = int(os.environ.get("VERIF_C01_PROGRAMS", "300" if q else "8000"))
     nperturb = 1
-    budget = 100 if q else 1100
+    budget = 100 if q else 1000
     run.rule = (
         "Programs: vp/gen/tygen.py builds, type-directed and without rejection, a single module of ~250-600 lines: a vetted generic library (ident/first/pair/apply/unwrap_or/pick, overloads, "
         "value-restricted TypeVar, Box[T], operator class with reverse operators, context managers whose __exit__ returns bool vs None, raising helpers, NoReturn), a generated class world "
@@ -885,7 +885,7 @@ def run(run: Run) -> None:
     items = [(s, size, iaf, nperturb, i % max(1, nprog // 6) == 0) for i, (s, size, iaf) in enumerate(plan)]
     from vp.common import NPROC
 
-    batch = NPROC * 60  # one pool generation per batch (pmap recycles workers every 60 tasks)
+    batch = NPROC * 30  # one pool generation per batch; the wall guard is looked at between batches
     cands: list = []
     acc = rej = nseen = 0
     for lo in range(0, len(items), batch):
@@ -932,19 +932,19 @@ def run(run: Run) -> None:
             run.label("duplicate_violation_same_signature")
             continue
         seen.add(sig)
-        if nconf >= (6 if q else 16):
+        if nconf >= (4 if q else 12):
             run.label("candidates_not_confirmed_cap_reached")
             # still a verdict: report unconfirmed-by-cap candidates directly rather than dropping them
             _report(run, v, case, confirm_first=False, reduce=False)
             continue
         nconf += 1
         v["lines"] = case["text"].count("\n")
-        _report(run, v, case, confirm_first=True, reduce=not q or nconf <= 2)
+        _report(run, v, case, confirm_first=True, reduce=nconf <= (1 if q else 6))
     if run.violations:
         return
     if run.extra.get("harness_problems"):
         run.finish()
-        print("HARNESS-ERROR: membership checker failed on %d probes (see evidence)" % len(run.extra["harness_problems"]), file=sys.stderr)
+        print("HARNESS-ERROR: %d harness problems (membership checker or generator raised; see evidence harness_problems)" % len(run.extra["harness_problems"]), file=sys.stderr)
         sys.exit(2)
     if acc + rej and acc / (acc + rej) < 0.5:
         run.finish()
